@@ -144,3 +144,9 @@ package sql
 //@   modifies nothing
 //@ iface (Aliased).GetExpr()
 //@   modifies nothing
+
+// Ghost: the clauses handed to the last AndHaving of a builder chain.
+//@ ghost var havingArgs []SQLCondition
+//@ iface (ISelect).AndHaving(clauses)
+//@   ghostset havingArgs = clauses
+//@   modifies havingArgs
